@@ -261,7 +261,11 @@ DEFAULT_INIT = ",".join(MODPATH + "/" + p for p in
                          "template"]) + "," + MODPATH
 
 
-def run_gosym(job, ovdir, tmp, solver="z3"):
+SOLVER = os.environ.get("VERIF_SOLVER", "z3-new")
+
+
+def run_gosym(job, ovdir, tmp, solver=None):
+    solver = solver or SOLVER
     out = os.path.join(tmp, "res_%d.json" % (abs(hash((job.key(), solver))) % 10**9))
     cmd = [GOSYM, "-dir", REPO, "-pkg", "./" + job.pkg if job.pkg != "." else ".", "-overlay", ovdir, "-harness", job.harness,
            "-workers", str(job.workers), "-out", out, "-init", job.init or DEFAULT_INIT, "-witnesses", str(job.witnesses),
@@ -522,7 +526,7 @@ def run_check(pid, tier):
         cov["outside_bounds"] = spec.get("outside", "")
         cov["known_findings_seen"] = sorted(known_hit)
         cov["machinery_errors"] = machinery
-        cov["solver"] = "z3 (one `z3 -in` process per worker, push/pop per query)"
+        cov["solver"] = SOLVER + " (one `-in` process per worker; assertion stack shared between consecutive queries via push/pop)"
         if not cov["samples"]:
             cov["samples"] = [{"note": "no passing witness recorded"}]
         ev = {"property_id": pid, "tier": tier, "seed": seed, "level": "model_checking", "coverage": cov,
